@@ -105,7 +105,7 @@ Proof.
   induction segs as [|seg rest IH]; intros x s' H I Hu Hq; cbn [psm_extend_loop] in H.
   - injection H as <-. exact Hq.
   - apply Forall_cons_iff in Hu. destruct Hu as [Hseg Hrest].
-    destruct (list_eqb seg [46] || list_eqb seg [46; 46]); [eapply IH; eassumption|].
+    destruct (psm_skips seg); [eapply IH; eassumption|].
     set (s1 := if (ps + 1 <? nlen x) || (nlen x =? ps) then x ++ [47] else x) in *.
     assert (SInv s0 ps s1 /\ byte_eqb s1 ps 47 = true /\ Q ps s1) as (I1 & Hb1 & Q1).
     { pose proof (sinv_len s0 ps Hps x I) as L. destruct I as (A & B & C). subst s1.
